@@ -230,7 +230,7 @@ func (w *World) pluginFiles(c *Container, inv *Invocation, add bool) {
 	flannel := gcDirs[0] + "/" + c.ID
 	// the host side veth of this interface, named as pkg/utils.HostVethName does (nine characters of the id)
 	veth := "v-h" + c.ID[:9]
-	if inv.IfName != "eth0" {
+	if inv.IfName != kubeIf(c.Pod) {
 		veth += "-" + strings.TrimPrefix(strings.TrimPrefix(inv.IfName, "eth"), "net")
 	}
 	if add {
